@@ -44,10 +44,10 @@ def FieldAt (v : V) (bs : Bytes) (fl : FL) : Prop :=
 /-- the whole layout table of kind `k` holds for the value `v` and its encoding `bs` -/
 def LayoutHolds (k : String) (v : V) (bs : Bytes) : Prop := ∀ fl ∈ layoutOf k, FieldAt v bs fl
 
-theorem n8_toNat (x : Nat) : (n8 x).toNat = x % 2 ^ (8 * 1) := by simp [n8, UInt8.toNat_ofNat']
-theorem n16_toNat (x : Nat) : (n16 x).toNat = x % 2 ^ (8 * 2) := by simp [n16, UInt16.toNat_ofNat']
-theorem n32_toNat (x : Nat) : (n32 x).toNat = x % 2 ^ (8 * 4) := by simp [n32, UInt32.toNat_ofNat']
-theorem n64_toNat (x : Nat) : (n64 x).toNat = x % 2 ^ (8 * 8) := by simp [n64, UInt64.toNat_ofNat']
+theorem lay_n8_toNat (x : Nat) : (n8 x).toNat = x % 2 ^ (8 * 1) := by simp [n8, UInt8.toNat_ofNat']
+theorem lay_n16_toNat (x : Nat) : (n16 x).toNat = x % 2 ^ (8 * 2) := by simp [n16, UInt16.toNat_ofNat']
+theorem lay_n32_toNat (x : Nat) : (n32 x).toNat = x % 2 ^ (8 * 4) := by simp [n32, UInt32.toNat_ofNat']
+theorem lay_n64_toNat (x : Nat) : (n64 x).toNat = x % 2 ^ (8 * 8) := by simp [n64, UInt64.toNat_ofNat']
 
 /-- arithmetic form of the packed OXM header word (proof as in Props/C15 `marshalHeader_toNat`) -/
 theorem marshalHeader_toNat' (c : UInt16) (f : UInt8) (m : Bool) (l : UInt8) (e : UInt32) (hf : f.toNat < 128) :
@@ -164,7 +164,7 @@ macro "lay_rows" h:ident : tactic => `(tactic| simp [layoutOf, Spec.layouts, Lis
 macro "lay_num" hf:ident : tactic => `(tactic| (
   show beAt _ _ _ = _ % 2 ^ (8 * _)
   first
-  | (rw [← n8_toNat]; first
+  | (rw [← lay_n8_toNat]; first
     | exact fill_u8_at _ _ _ $hf 0 _ rfl _ (by lay_off)
     | exact fill_u8_at _ _ _ $hf 1 _ rfl _ (by lay_off)
     | exact fill_u8_at _ _ _ $hf 2 _ rfl _ (by lay_off)
@@ -177,7 +177,7 @@ macro "lay_num" hf:ident : tactic => `(tactic| (
     | exact fill_u8_at _ _ _ $hf 9 _ rfl _ (by lay_off)
     | exact fill_u8_at _ _ _ $hf 10 _ rfl _ (by lay_off)
     | exact fill_u8_at _ _ _ $hf 11 _ rfl _ (by lay_off))
-  | (rw [← n16_toNat]; first
+  | (rw [← lay_n16_toNat]; first
     | exact fill_be16_at _ _ _ $hf 0 _ rfl _ (by lay_off)
     | exact fill_be16_at _ _ _ $hf 1 _ rfl _ (by lay_off)
     | exact fill_be16_at _ _ _ $hf 2 _ rfl _ (by lay_off)
@@ -190,7 +190,7 @@ macro "lay_num" hf:ident : tactic => `(tactic| (
     | exact fill_be16_at _ _ _ $hf 9 _ rfl _ (by lay_off)
     | exact fill_be16_at _ _ _ $hf 10 _ rfl _ (by lay_off)
     | exact fill_be16_at _ _ _ $hf 11 _ rfl _ (by lay_off))
-  | (rw [← n32_toNat]; first
+  | (rw [← lay_n32_toNat]; first
     | exact fill_be32_at _ _ _ $hf 0 _ rfl _ (by lay_off)
     | exact fill_be32_at _ _ _ $hf 1 _ rfl _ (by lay_off)
     | exact fill_be32_at _ _ _ $hf 2 _ rfl _ (by lay_off)
@@ -203,7 +203,7 @@ macro "lay_num" hf:ident : tactic => `(tactic| (
     | exact fill_be32_at _ _ _ $hf 9 _ rfl _ (by lay_off)
     | exact fill_be32_at _ _ _ $hf 10 _ rfl _ (by lay_off)
     | exact fill_be32_at _ _ _ $hf 11 _ rfl _ (by lay_off))
-  | (rw [← n64_toNat]; first
+  | (rw [← lay_n64_toNat]; first
     | exact fill_be64_at _ _ _ $hf 0 _ rfl _ (by lay_off)
     | exact fill_be64_at _ _ _ $hf 1 _ rfl _ (by lay_off)
     | exact fill_be64_at _ _ _ $hf 2 _ rfl _ (by lay_off)
@@ -239,7 +239,7 @@ macro "lay_hdr" hw:ident hf:ident : tactic => `(tactic| (
 macro "lay_chunk" : tactic => `(tactic| (
   show beAt _ _ _ = _ % 2 ^ (8 * _)
   first
-  | (rw [← n8_toNat]; first
+  | (rw [← lay_n8_toNat]; first
     | exact chunk_u8 _ _ 0 _ rfl _ (by lay_sum)
     | exact chunk_u8 _ _ 1 _ rfl _ (by lay_sum)
     | exact chunk_u8 _ _ 2 _ rfl _ (by lay_sum)
@@ -254,7 +254,7 @@ macro "lay_chunk" : tactic => `(tactic| (
     | exact chunk_u8 _ _ 11 _ rfl _ (by lay_sum)
     | exact chunk_u8 _ _ 12 _ rfl _ (by lay_sum)
     | exact chunk_u8 _ _ 13 _ rfl _ (by lay_sum))
-  | (rw [← n16_toNat]; first
+  | (rw [← lay_n16_toNat]; first
     | exact chunk_be16 _ _ 0 _ rfl _ (by lay_sum)
     | exact chunk_be16 _ _ 1 _ rfl _ (by lay_sum)
     | exact chunk_be16 _ _ 2 _ rfl _ (by lay_sum)
@@ -269,7 +269,7 @@ macro "lay_chunk" : tactic => `(tactic| (
     | exact chunk_be16 _ _ 11 _ rfl _ (by lay_sum)
     | exact chunk_be16 _ _ 12 _ rfl _ (by lay_sum)
     | exact chunk_be16 _ _ 13 _ rfl _ (by lay_sum))
-  | (rw [← n32_toNat]; first
+  | (rw [← lay_n32_toNat]; first
     | exact chunk_be32 _ _ 0 _ rfl _ (by lay_sum)
     | exact chunk_be32 _ _ 1 _ rfl _ (by lay_sum)
     | exact chunk_be32 _ _ 2 _ rfl _ (by lay_sum)
@@ -284,7 +284,7 @@ macro "lay_chunk" : tactic => `(tactic| (
     | exact chunk_be32 _ _ 11 _ rfl _ (by lay_sum)
     | exact chunk_be32 _ _ 12 _ rfl _ (by lay_sum)
     | exact chunk_be32 _ _ 13 _ rfl _ (by lay_sum))
-  | (rw [← n64_toNat]; first
+  | (rw [← lay_n64_toNat]; first
     | exact chunk_be64 _ _ 0 _ rfl _ (by lay_sum)
     | exact chunk_be64 _ _ 1 _ rfl _ (by lay_sum)
     | exact chunk_be64 _ _ 2 _ rfl _ (by lay_sum)
